@@ -556,7 +556,7 @@ func domDistribution(env *Env) error {
 	rng := NewRNG(env.Report.Seed)
 	env.Report.Domain = "distribution"
 
-	// ---- directed scenarios (on the real code): F-17a minimal, F-17b halt
+	// ---- directed regression histories (on the real code): F-17a minimal, F-17b two-AVS staker
 	distrScenarioF17a(env)
 	distrScenarioF17b(env)
 
@@ -715,8 +715,10 @@ func domDistribution(env *Env) error {
 	return nil
 }
 
-// distrScenarioF17a: the smallest history in which the booked claims exceed the amount moved:
-// two validators with self-delegation only, 1000 base units of fees, one distribution epoch.
+// distrScenarioF17a (regression for F-17a, repaired): two validators with self-delegation only,
+// 1000 base units of fees, one distribution epoch. Before the repair the booked claims exceeded
+// the amount moved by the stakers' rewards (1000e18 moved, 1955.37e18 booked); a re-introduction
+// makes C17.claims / C17.solvency fire with the sigs F17a:….
 func distrScenarioF17a(env *Env) {
 	cfg := DefaultCfg(env.Report.Seed*1000 + 900)
 	cfg.EpochID = epochstypes.WeekEpochID
@@ -730,16 +732,17 @@ func distrScenarioF17a(env *Env) {
 	r.block(61 * time.Second)
 	env.Report.Histories++
 	if r.f17aSeen {
-		env.Outcome("scenario-F17a:reproduced")
+		env.Outcome("scenario-F17a:overbooked")
 	} else {
-		env.Outcome("scenario-F17a:not-reproduced")
+		env.Outcome("scenario-F17a:clean")
 	}
 }
 
-// distrScenarioF17b: an operator opted in to two AVSs whose asset lists differ; a staker that
-// delegated both assets appears three times in globalStakerAddressList, every occurrence is paid
-// with the power of the LAST occurrence, the fractions add up to more than one and
-// `remaining.Sub` panics inside BeginBlock.
+// distrScenarioF17b (regression for F-17b, repaired): an operator opted in to two AVSs whose asset
+// lists differ; a staker that delegated both assets is visited three times by the collection loop
+// of AllocateTokensToStakers. Before the repair every visit was paid with the power of the LAST
+// visit, the fractions added up to more than one and `remaining.Sub` panicked inside BeginBlock
+// (sig halt:negative-coin-amount); now the staker is listed once with its accumulated power.
 func distrScenarioF17b(env *Env) {
 	cfg := DefaultCfg(env.Report.Seed*1000 + 901)
 	cfg.EpochID = epochstypes.WeekEpochID
@@ -801,9 +804,9 @@ func distrScenarioF17b(env *Env) {
 	}
 	env.Report.Histories++
 	if !ok {
-		env.Outcome("scenario-F17b:reproduced")
+		env.Outcome("scenario-F17b:halted")
 	} else {
-		env.Outcome("scenario-F17b:not-reproduced")
+		env.Outcome("scenario-F17b:clean")
 	}
 }
 
